@@ -19,7 +19,25 @@ CLAIM = ('Decides for rpc/serialize.h (witness messages with every field type, p
 NS = 'photon::rpc::'
 
 
+def bounded_string_ops(R, prog):
+    """K9: a deserialized rpc::string is a (pointer, length) pair taken from the wire; nothing guarantees a terminating NUL inside the
+    received bytes.  Its operations therefore go through the length-bounded view sv(); the NUL-scanning C string functions are not
+    called on it (they would read past the field, possibly past the input)."""
+    UNBOUNDED = {'strcmp', 'strcoll', 'strlen', 'strcpy', 'strcat', 'strchr', 'strrchr', 'strstr', 'strdup', 'strcasecmp', 'atoi', 'atol', 'strtol', 'strtoul'}
+    fs = [f for f in prog.funcs.values() if (f.rec or '') == NS + 'string' and f.file.endswith('rpc/serialize.h') and f.kind == 'method' and f.blocks]
+    ops = [f for f in fs if re.search(r'::operator(<|>|==|!=|<=|>=)$', f.nname)]
+    R.require(len(ops) >= 3, 'C12: comparison operators of rpc::string not found (%d)' % len(ops))
+    for f in sorted(fs, key=lambda f: f.line):
+        bad = [e for e in f.exprs if e['k'] == 'call' and strip_targs(e.get('fn') or '').split('::')[-1] in UNBOUNDED]
+        key = '%s.K9:rpc::string::%s:length-bounded-operations-only' % (P, f.nname.split('::')[-1])
+        if bad:
+            R.violated(P + '.K9', key, f.id, f.locl(bad[0]['loc']), '%s scans for a NUL that a wire-supplied string need not contain' % strip_targs(bad[0]['fn']))
+        elif f in ops:
+            R.held(P + '.K9', key, f.id, '%s:%d' % (f.file, f.line), 'compares through the length-bounded view', nontrivial=False)
+
+
 def run(R, prog, tier):
+    R.guard(bounded_string_ops, R, prog)
     R.guard(pointers, R, prog)
     R.guard(gates, R, prog)
     R.guard(symmetry, R, prog)
